@@ -25,7 +25,7 @@ case "$ID" in
     export VW_FRESH_EXE="$BUILD/vwfresh-$ID" ;;
 esac
 case "$ID" in
-  C07|C08|C09)
+  C07|C08|C09|C19)
     # the same worker for GOARCH=386 (32-bit int, portable kernels); runs on this machine
     if ! GOARCH=386 go build -tags verif -o "$BUILD/vw-$ID-386" ./cmd/vw >>"$LOG" 2>&1; then
       echo "BUILD-FAILED (386) property=$ID (see $LOG)"; tail -20 "$LOG"; exit 3
